@@ -73,7 +73,7 @@ def build_test(state):
       # a real Ctrl-C while the test runs and is registered for it; the wind-down (teardown phase below) then takes
       # longer than cancel_timeout_s
       import os, signal  # pylint: disable=g-import-not-at-top,multiple-imports
-      while not h.Test.TEST_INSTANCES:
+      while not any(t is state['test'] for t in list(h.Test.TEST_INSTANCES.values())):      # (THIS test is registered)
         time.sleep(0.001)
       os.kill(os.getpid(), signal.SIGINT)
       while True:
